@@ -44,8 +44,8 @@ type C13Backoff struct {
 }
 
 type c13Static struct {
-	ListenAddr string              `dials:"listen_addr"`
-	MaxConn    int32               `dials:"max_conn" json:"maxConn"`
+	ListenAddr string              `geojson:"Point" dials:"listen_addr"`
+	MaxConn    int32               `dials:"max_conn" json:"maxConn" goyaml:"mc" oldtoml:"legacy_name"`
 	Ratio      float64             `dials:"ratio" toml:"toml-ratio"`
 	Debug      bool                `dials:"debug"`
 	Timeout    time.Duration       `dials:"timeout"`
